@@ -609,6 +609,7 @@ def random_selector(rng, n, allow_oob=True):
         if k == "list":
             return q
         dts = ["int64", "int32", "intp", "int64", ">i8", ">i4", ">i2"] + ([">u8", ">u4", "uint16"] if all(x >= 0 for x in q) else [])     # byte-swapped index vectors too
+        dts = [d_ for d_ in dts if not q or (np.iinfo(np.dtype(d_)).min <= min(q) and max(q) <= np.iinfo(np.dtype(d_)).max)] or ["int64"]      # (types that hold the positions)
         return np.array(q, dtype=rng.choice(dts))
     if k == "mask":
         p = rng.choice([0.0, 0.5, 0.5, 1.0])
